@@ -74,7 +74,16 @@ _BASELINE = {}
 
 
 def _timeouts(tier):
-    return (10, 30) if tier == "quick" else (60, 120)
+    """(short, long) solver budgets in seconds.  z3's limits are wall-clock, so on an oversubscribed machine the same query gets a
+    fraction of the CPU time: the budgets grow with the load (x1 up to x4 once the 1-minute load exceeds twice the core count).
+    Proved obligations cost what they cost either way; only inconclusive ones wait longer."""
+    q, th = (10, 30) if tier == "quick" else (60, 120)
+    try:
+        over = os.getloadavg()[0] / max(1, os.cpu_count() or 1)
+        f = 1.0 if over <= 2 else min(4.0, over / 2.0)
+    except (OSError, AttributeError):
+        f = 1.0
+    return int(q * f), int(th * f)
 
 
 # ---- hard wall-clock guard around solver calls ------------------------------------------------------------------------------
